@@ -106,6 +106,14 @@ func init() { RegisterStateType(&VfC13Exch{}) }
 
 var vfC13Key = []byte("c13-fixed-token-key-0123456789ab")
 
+// vfC13Short abbreviates long identity parts for failure details.
+func vfC13Short(v string) string {
+	if len(v) > 48 {
+		return fmt.Sprintf("%s…(%d bytes)", v[:40], len(v))
+	}
+	return v
+}
+
 // vfC13Uniq makes the identities of space 2b unique per execution (see there).
 var vfC13Uniq int
 
@@ -430,6 +438,40 @@ func TestVerif_C13(t *testing.T) {
 		}},
 		sepShape("colon", ":"), sepShape("slash", "/"), sepShape("pipe", "|"), sepShape("space", " "), sepShape("at", "@"),
 	}
+	// Long identities (SPIFFE ids, service-account names, long OIDC subjects) that
+	// agree everywhere except near one end, or where one is a prefix of the other:
+	// any rendering that is clamped, windowed or length-limited conflates them.
+	// n is the length of the shared part; the thresholds sit around the usual
+	// clamp sizes.
+	longLens := venum.QT([]int{100, 300, 5000},
+		[]int{16, 31, 32, 33, 63, 64, 65, 100, 127, 128, 129, 255, 256, 257, 300, 1023, 1024, 1025, 4096, 5000, 70000})
+	for _, n := range longLens {
+		n := n
+		fill := func(u string) string { // n bytes, starts with the per-execution tag
+			b := []byte(u)
+			for len(b) < n {
+				b = append(b, "spiffe://cluster.local/ns/prod/sa/"[len(b)%34])
+			}
+			return string(b[:n])
+		}
+		shapes = append(shapes,
+			shape{fmt.Sprintf("principals-share-first-%d-bytes", n), "long-common-prefix", func(u string) (vfC13Id, vfC13Id) {
+				return vfC13Id{domain: "spiffe", principal: fill(u) + "a"}, vfC13Id{domain: "spiffe", principal: fill(u) + "b"}
+			}},
+			shape{fmt.Sprintf("principal-is-%d-byte-prefix-of-other", n), "long-prefix-of-other", func(u string) (vfC13Id, vfC13Id) {
+				return vfC13Id{domain: "spiffe", principal: fill(u)}, vfC13Id{domain: "spiffe", principal: fill(u) + "x"}
+			}},
+			shape{fmt.Sprintf("principals-share-last-%d-bytes", n), "long-common-suffix", func(u string) (vfC13Id, vfC13Id) {
+				return vfC13Id{domain: "spiffe", principal: "a" + fill(u)}, vfC13Id{domain: "spiffe", principal: "b" + fill(u)}
+			}},
+			shape{fmt.Sprintf("domains-share-first-%d-bytes", n), "long-domain-common-prefix", func(u string) (vfC13Id, vfC13Id) {
+				return vfC13Id{domain: fill(u) + "a", principal: "svc"}, vfC13Id{domain: fill(u) + "b", principal: "svc"}
+			}},
+			shape{fmt.Sprintf("same-%d-byte-principal-other-short-domain", n), "long-principal-other-domain", func(u string) (vfC13Id, vfC13Id) {
+				return vfC13Id{domain: "jwt", principal: fill(u)}, vfC13Id{domain: "mtls", principal: fill(u)}
+			}},
+		)
+	}
 	venum.Explore(t, venum.Cfg{Name: "colliding-identity-histories", Shardable: true}, func(x *venum.X) {
 		sh := shapes[x.Choose(len(shapes), "shape")]
 		swap := x.Bool("swap-roles")
@@ -524,7 +566,7 @@ func TestVerif_C13(t *testing.T) {
 			x.Failf(cls+":same-identity-refused", "minter presenting its own token(s) was refused (first use: %s): status=%d %s", history, r.status, r.errs)
 		case !self && accepted:
 			x.Failf(cls+":cross-identity-accepted", "token(s) minted for (domain <u>+%q, principal %q) accepted from a different identity with the same rendering (shape %s, first use: %s, cache-off=%v): status=%d",
-				strings.TrimPrefix(A.domain, u), strings.TrimPrefix(A.principal, u), sh.name, history, cacheOff, r.status)
+				vfC13Short(strings.TrimPrefix(A.domain, u)), vfC13Short(strings.TrimPrefix(A.principal, u)), sh.name, history, cacheOff, r.status)
 		case !self && kind != "sticky" && (r.status < 400 || r.status > 499):
 			x.Failf(cls+":refusal-not-a-client-error", "status=%d %s", r.status, r.errs)
 		}
